@@ -268,7 +268,24 @@ class Exec:
             if isinstance(v, ast.Constant):
                 parts.append(str(v.value))
             else:
-                parts.append(self.ev(v.value, env))
+                x = self.ev(v.value, env)
+                if getattr(v, 'conversion', -1) not in (-1, None):
+                    x = T('conv', (chr(v.conversion), x)) if not (v.conversion == ord('s') and isinstance(x, str)) else x
+                if getattr(v, 'format_spec', None) is not None:
+                    x = T('fmt', (x, ast.unparse(v.format_spec)))
+                if isinstance(x, str) and parts and isinstance(parts[-1], str):
+                    parts[-1] += x
+                elif isinstance(x, T) and x.op == 'fstr':
+                    parts.extend(x.args)
+                else:
+                    parts.append(x)
+        merged = []
+        for x in parts:
+            if isinstance(x, str) and merged and isinstance(merged[-1], str):
+                merged[-1] += x
+            else:
+                merged.append(x)
+        parts = merged
         if all(isinstance(p, str) for p in parts):
             return ''.join(parts)
         return T('fstr', tuple(parts))
@@ -494,6 +511,10 @@ class Exec:
                 return r
         if isinstance(recv, str) and attr == 'format' and all(isinstance(a, (str, int)) for a in args) and not kwargs:
             return recv.format(*args)
+        if isinstance(recv, str) and attr == 'format':
+            r = self.format_template(recv, args, dict(kwargs))
+            if r is not NotImplemented:
+                return r
         if isinstance(recv, str) and attr in ('strip', 'lower', 'upper', 'rstrip', 'lstrip') and not args:
             return getattr(recv, attr)()
         # builtins on modelled values
@@ -513,6 +534,59 @@ class Exec:
             return self.inline(target, recv, args, kwargs)
         self.events.append(('call', fname, args, kwargs))
         return T('call', (fname, args, kwargs))
+
+    def format_template(self, template, args, kwargs):
+        """'...{}...{name!r:spec}...'.format(...) with symbolic arguments -> fstr term (conversions and specs kept as terms)."""
+        import string
+        parts = []
+        auto = 0
+        try:
+            fields = list(string.Formatter().parse(template))
+        except ValueError:
+            return NotImplemented
+        for lit, field, spec, conv in fields:
+            if lit:
+                parts.append(lit)
+            if field is None:
+                continue
+            if field == '':
+                if auto >= len(args):
+                    return NotImplemented
+                v = args[auto]
+                auto += 1
+            elif field.isdigit():
+                if int(field) >= len(args):
+                    return NotImplemented
+                v = args[int(field)]
+            elif field.isidentifier():
+                if field not in kwargs:
+                    return NotImplemented
+                v = kwargs[field]
+            else:
+                return NotImplemented
+            if conv:
+                v = T('conv', (conv, v))
+            if spec:
+                v = T('fmt', (v, spec))
+            if isinstance(v, str) and parts and isinstance(parts[-1], str):
+                parts[-1] += v
+            elif isinstance(v, T) and v.op == 'fstr':
+                for x in v.args:
+                    if isinstance(x, str) and parts and isinstance(parts[-1], str):
+                        parts[-1] += x
+                    else:
+                        parts.append(x)
+            else:
+                parts.append(v)
+        merged = []
+        for x in parts:
+            if isinstance(x, str) and merged and isinstance(merged[-1], str):
+                merged[-1] += x
+            else:
+                merged.append(x)
+        if all(isinstance(x, str) for x in merged):
+            return ''.join(merged)
+        return T('fstr', tuple(merged))
 
     def builtin(self, name, args, kwargs, node, env):
         if name == 'isinstance' and len(args) == 2:
